@@ -68,20 +68,42 @@ def assembleFormat (sp : FSpec) : Outcome (List Nat) := do
   -- format_buffer[end] = 0;
   if buf.length ≥ FORMAT_BUFFER then .oob else pure buf
 
-/-- `snprintf(out_buffer, sizeof(out_buffer), fmt, value)` followed by the two assertions: the text
-    available in `out_buffer` afterwards -/
+/-- what `snprintf(buf, n, fmt, value)` leaves in `buf` (before the terminator): at most `n - 1` characters
+    of the complete text; its return value is the length of the complete text -/
+def snprintfInto (render : Render) (n : Nat) (fmt : List Nat) (bits : Nat) : List Nat × Nat :=
+  let text := render fmt bits
+  (text.take (n - 1), text.length)
+
+/-- the rendering step shared by `format_type(double)` and `float_formatter::format` (as repaired):
+    `snprintf` into the 64-byte buffer; if the reported size does not fit, allocate `size` (+1) characters
+    on the heap and `snprintf` again; the result is the `format_size` characters the caller then appends.
+    (The pinned tree asserted `format_size < 64` instead: `Pinned.renderInto64`.) -/
+def renderText (render : Render) (fmt : List Nat) (bits : Nat) : Outcome (List Nat) :=
+  let (stackText, formatSize) := snprintfInto render OUT_BUFFER fmt bits
+  if ¬ (formatSize > 0) then .assertFail "Your libc doesn't support reporting format size"
+  else if formatSize ≥ OUT_BUFFER then
+    -- heap_buffer.allocate(format_size); format_size = snprintf(heap_buffer.data(), heap_buffer.size() + 1, …)
+    let (heapText, formatSize') := snprintfInto render (formatSize + 1) fmt bits
+    -- the caller appends `format_size` characters starting at the buffer: reading past what was written is `oob`
+    if formatSize' > heapText.length then .oob else .ok (heapText.take formatSize')
+  else
+    if formatSize > stackText.length then .oob else .ok (stackText.take formatSize)
+
+namespace Pinned
+/-- the pinned tree: `snprintf(out_buffer, 64, …)` then `ST_ASSERT(format_size < sizeof(out_buffer), "Format buffer too small")` -/
 def renderInto64 (render : Render) (fmt : List Nat) (bits : Nat) : Outcome (List Nat) :=
   let text := render fmt bits
   let formatSize := text.length
   if ¬ (formatSize > 0) then .assertFail "Your libc doesn't support reporting format size"
   else if ¬ (formatSize < OUT_BUFFER) then .assertFail "Format buffer too small"
   else .ok text
+end Pinned
 
 /-- `ST::format_type(const format_spec&, format_writer&, double)`: the bytes appended to the output -/
 def formatDouble (render : Render) (sp : FSpec) (bits : Nat) : Outcome (List Nat) := do
   let pad := if sp.pad ≠ 0 then sp.pad else 32
   let fmt ← assembleFormat sp
-  let text ← renderInto64 render fmt bits
+  let text ← renderText render fmt bits
   let formatSize : Int := text.length
   if sp.minimumLength > formatSize then
     if sp.alignment = .left then
@@ -99,7 +121,7 @@ def formatFloat (render : Render) (promote : Nat → Nat) (sp : FSpec) (bits32 :
 /-- `float_formatter<float_T>::format(value, format)`: the letter must be one of "efgEFG" -/
 def floatFormatter (render : Render) (bits : Nat) (format : Nat) : Outcome (List Nat) :=
   if ¬ ([101, 102, 103, 69, 70, 71].contains format) then .throw .badFormat
-  else renderInto64 render [37, format] bits      -- format_double: format_spec[] = { '%', format, 0 }
+  else renderText render [37, format] bits      -- format_double: format_spec[] = { '%', format, 0 }
 
 /-- `ST::string::from_double(value, format)` (`mini_format_float` copies `size()` characters) -/
 def fromDouble (render : Render) (bits : Nat) (format : Nat) : Outcome (List Nat) := floatFormatter render bits format
@@ -122,5 +144,27 @@ def toFloatingR (parse : List Nat → Nat × Nat) (s : List Nat) : Nat × ConvFl
 
 /-- the overloads without a result -/
 def toFloating (parse : List Nat → Nat × Nat) (s : List Nat) : Nat := (parse (cstr s)).1
+
+/-! #### the pinned tree before the repair of defect #13 (kept for the witness theorems only) -/
+namespace Pinned
+
+def formatDouble (render : Render) (sp : FSpec) (bits : Nat) : Outcome (List Nat) := do
+  let pad := if sp.pad ≠ 0 then sp.pad else 32
+  let fmt ← assembleFormat sp
+  let text ← renderInto64 render fmt bits
+  let formatSize : Int := text.length
+  if sp.minimumLength > formatSize then
+    if sp.alignment = .left then
+      pure (text ++ List.replicate (sp.minimumLength - formatSize).toNat pad)
+    else
+      pure (List.replicate (sp.minimumLength - formatSize).toNat pad ++ text)
+  else
+    pure text
+
+def floatFormatter (render : Render) (bits : Nat) (format : Nat) : Outcome (List Nat) :=
+  if ¬ ([101, 102, 103, 69, 70, 71].contains format) then .throw .badFormat
+  else renderInto64 render [37, format] bits
+
+end Pinned
 
 end StVerif.Float
